@@ -46,6 +46,13 @@ pub struct UdpCase {
     pub server: SocketAddr,
     pub id: u16,
     pub case_rand: bool,
+    /// how the `DnsRequest` is obtained:
+    /// `n` = `DnsRequest::new(message, options)`; `o` = the same `.with_original_query(Some(..))` when
+    /// case randomisation is on; `m` = `DnsRequest::from(message)` + `*options_mut() = options`;
+    /// `f` = `DnsRequest::from_query(query, options)` (one question; it randomises the letter case
+    /// itself when asked to, so the line's question is the *original* one and the scripted questions
+    /// are re-expressed relative to the name that really went out, see `effective`)
+    pub ctor: char,
     pub qs: Vec<Q>,
     pub scripts: Vec<Vec<Ev>>,
 }
@@ -137,7 +144,7 @@ fn parse_ev(s: &str) -> Option<Ev> {
 
 pub fn case_line(c: &UdpCase) -> String {
     let mut s = format!(
-        "udp {} {} {} {} {} {} {} {}",
+        "udp {} {} {} {} {} {} {}{} {}",
         c.timeout,
         c.retry_interval,
         c.floor,
@@ -145,6 +152,7 @@ pub fn case_line(c: &UdpCase) -> String {
         addr_tok(&c.server),
         c.id,
         b(c.case_rand),
+        c.ctor,
         qs_tok(&c.qs)
     );
     for sc in &c.scripts {
@@ -176,7 +184,8 @@ pub fn parse_case(t: &[&str]) -> Option<UdpCase> {
         max_retries: t[4].parse().ok()?,
         server: parse_addr(t[5])?,
         id: t[6].parse().ok()?,
-        case_rand: match t[7] { "1" => true, "0" => false, _ => return None },
+        case_rand: match &t[7][..1] { "1" => true, "0" => false, _ => return None },
+        ctor: match &t[7][1..] { "" | "o" => 'o', "n" => 'n', "m" => 'm', "f" => 'f', _ => return None },
         qs: parse_qs(t[8])?,
         scripts,
     })
@@ -376,7 +385,96 @@ pub fn dgram_bytes(t: usize, j: usize, e: &Ev) -> Option<(Vec<u8>, SocketAddr)> 
     }
 }
 
-pub fn run_case(c: &UdpCase) -> Option<UdpRun> {
+fn lower_bytes(l: &[u8]) -> Vec<u8> {
+    l.iter().map(|c| if c.is_ascii_uppercase() { c + 32 } else { *c }).collect()
+}
+
+/// `q` re-expressed relative to the name that really went out: where `q` is `line` up to letter case,
+/// the result is `sent` with the case toggled exactly where `q` differs from `line` (so "same as the
+/// request" stays the same and "differs in these letters" still differs in these letters).
+fn rebase(q: &Q, line: &Q, sent: &Q) -> Q {
+    let same_shape = q.labels.len() == line.labels.len()
+        && q.labels.iter().zip(&line.labels).all(|(a, bb)| lower_bytes(a) == lower_bytes(bb));
+    if !same_shape {
+        return q.clone();
+    }
+    let labels = q
+        .labels
+        .iter()
+        .zip(&line.labels)
+        .zip(&sent.labels)
+        .map(|((ql, ll), sl)| ql.iter().zip(ll).zip(sl).map(|((qc, lc), sc)| if qc != lc { sc ^ 0x20 } else { *sc }).collect())
+        .collect();
+    Q { labels, qtype: q.qtype, qclass: q.qclass }
+}
+
+/// Builds the request the way the case says and returns it with the *effective* case: the questions
+/// as they really are in the request, and the scripted questions re-expressed relative to them.
+pub fn prepare(c: &UdpCase) -> Option<(DnsRequest, UdpCase)> {
+    let mut opts = DnsRequestOptions::default();
+    opts.case_randomization = c.case_rand;
+    opts.retry_interval = Duration::from_millis(c.retry_interval);
+    let mut msg = Message::new(c.id, MessageType::Query, OpCode::Query);
+    msg.metadata.recursion_desired = true;
+    for q in &c.qs {
+        msg.queries.push(q_to_query(q)?);
+    }
+    let req = match c.ctor {
+        'n' => DnsRequest::new(msg, opts),
+        'o' => {
+            let original = if c.case_rand {
+                msg.queries.first().map(|q| {
+                    let mut q = q.clone();
+                    q.name = q.name.to_lowercase();
+                    q
+                })
+            } else {
+                None
+            };
+            DnsRequest::new(msg, opts).with_original_query(original)
+        }
+        'm' => {
+            let mut r = DnsRequest::from(msg);
+            *r.options_mut() = opts;
+            r
+        }
+        'f' => {
+            if c.qs.len() != 1 {
+                return None;
+            }
+            let mut r = DnsRequest::from_query(q_to_query(&c.qs[0])?, opts);
+            r.metadata.id = c.id; // `Message::query()` drew a random one
+            r
+        }
+        _ => return None,
+    };
+    let sent: Vec<Q> = req
+        .queries
+        .iter()
+        .map(|q| Q { labels: q.name.iter().map(|l| l.to_vec()).collect(), qtype: q.query_type.into(), qclass: q.query_class.into() })
+        .collect();
+    let mut eff = c.clone();
+    if c.ctor == 'f' {
+        let (line, sentq) = (&c.qs[0], &sent[0]);
+        for sc in eff.scripts.iter_mut() {
+            for e in sc.iter_mut() {
+                if let Ev::D { qs, raw, parses, .. } = e {
+                    if raw.is_some() && *parses && !qs.is_empty() {
+                        return None; // raw bytes cannot be re-expressed
+                    }
+                    for q in qs.iter_mut() {
+                        *q = rebase(q, line, sentq);
+                    }
+                }
+            }
+        }
+    }
+    eff.qs = sent;
+    Some((req, eff))
+}
+
+/// runs the effective case `c` (from `prepare`) with its request on the real code
+pub fn run_case(c: &UdpCase, req: DnsRequest) -> Option<UdpRun> {
     vtime::reset();
     let prov = ScriptedProvider::default();
     let mut all_bytes: Vec<Vec<Option<Vec<u8>>>> = vec![];
@@ -397,16 +495,6 @@ pub fn run_case(c: &UdpCase) -> Option<UdpRun> {
             all_bytes.push(bs);
         }
     }
-    let mut msg = Message::new(c.id, MessageType::Query, OpCode::Query);
-    msg.metadata.recursion_desired = true;
-    for q in &c.qs {
-        msg.queries.push(q_to_query(q)?);
-    }
-    let mut opts = DnsRequestOptions::default();
-    opts.case_randomization = c.case_rand;
-    opts.retry_interval = Duration::from_millis(c.retry_interval);
-    let original = if c.case_rand { msg.queries.first().map(|q| { let mut q = q.clone(); q.name = q.name.to_lowercase(); q }) } else { None };
-    let req = DnsRequest::new(msg, opts).with_original_query(original);
 
     let mut client = UdpClientStream::builder(c.server, prov.clone())
         .with_timeout(Some(Duration::from_millis(c.timeout)))
